@@ -608,4 +608,477 @@ theorem varInv_step {P : Var → Prop}
     · rw [step_invalid_arith hv]; exact h
 
 
+
+/-! ### the invariants of property C09 -/
+
+/-- the cached boundary terms were built from the snapshot `_BCs_applied` -/
+def CacheV (x : Var) : Prop := x.precalc = true → x.cache = some x.applied
+
+/-- unless the values were edited, the ghost layer was computed from the current interior and
+    the snapshot `_BCs_applied` -/
+def GhostV (x : Var) : Prop := x.valMod = false → x.ghostI = x.interior ∧ x.ghostB = x.applied
+
+def CacheInv (s : St) : Prop := VarInv CacheV s
+def GhostInv (s : St) : Prop := VarInv GhostV s
+
+/-- cached boundary terms of a variable that is not flagged outdated reflect the CURRENT content
+    of its (possibly shared) BC object -/
+def CacheOK (s : St) : Prop :=
+  ∀ v, v < s.nV → (s.vars v).precalc = true → outdated s (s.vars v) = false →
+    (s.vars v).cache = some (s.bcs (s.vars v).bc).content
+
+/-- the ghost layer of a variable that is not flagged outdated reflects its current interior and
+    the current content of its BC object -/
+def GhostOK (s : St) : Prop :=
+  ∀ v, v < s.nV → outdated s (s.vars v) = false →
+    (s.vars v).ghostI = (s.vars v).interior ∧ (s.vars v).ghostB = (s.bcs (s.vars v).bc).content
+
+instance (s : St) : Decidable (CacheOK s) := by unfold CacheOK; infer_instance
+instance (s : St) : Decidable (GhostOK s) := by unfold GhostOK; infer_instance
+
+theorem outdated_eq_false {s : St} {x : Var} (h : outdated s x = false) :
+    (s.bcs x.bc).modified = false ∧ x.valMod = false ∧ x.applied = (s.bcs x.bc).content := by
+  unfold outdated at h
+  have h' : ((s.bcs x.bc).modified = false ∧ x.valMod = false) ∧ x.applied = (s.bcs x.bc).content := by
+    simpa [Bool.or_eq_false_iff] using h
+  exact ⟨h'.1.1, h'.1.2, h'.2⟩
+
+theorem outdated_of_applied_ne {s : St} {x : Var} (h : x.applied ≠ (s.bcs x.bc).content) :
+    outdated s x = true := by
+  cases hh : outdated s x
+  · exact absurd (outdated_eq_false hh).2.2 h
+  · rfl
+
+theorem cacheOK_of_cacheInv {s : St} (h : CacheInv s) : CacheOK s := by
+  intro v hv hp ho
+  rw [h v hv hp, (outdated_eq_false ho).2.2]
+
+theorem ghostOK_of_ghostInv {s : St} (h : GhostInv s) : GhostOK s := by
+  intro v hv ho
+  have ho := outdated_eq_false ho
+  have := h v hv ho.2.1
+  exact ⟨this.1, this.2.trans ho.2.2⟩
+
+theorem cacheV_applyVar (c : Nat) (x : Var) : CacheV (applyVar c x) := by
+  intro hp
+  have hp' : x.precalc = true := hp
+  simp only [applyVar, hp', if_true]
+
+theorem cacheV_mkVar (s : St) (b i : Nat) (p : Bool) : CacheV (mkVar s b i p) := by
+  intro hp
+  have hp' : p = true := hp
+  simp only [mkVar, hp', if_true]
+
+theorem cacheInv_step {s : St} (op : Op) (h : CacheInv s) : CacheInv (step s op).1 :=
+  varInv_step cacheV_applyVar cacheV_mkVar (fun _ _ hx => hx) (fun _ _ hx => hx) op
+    (fun _ _ _ _ _ => rfl) h
+
+theorem ghostV_applyVar (c : Nat) (x : Var) : GhostV (applyVar c x) := fun _ => ⟨rfl, rfl⟩
+theorem ghostV_mkVar (s : St) (b i : Nat) (p : Bool) : GhostV (mkVar s b i p) := fun _ => ⟨rfl, rfl⟩
+
+/-- `.copy v` is harmless for the ghost layer when `v` carries no un-applied value edit and its
+    snapshot `_BCs_applied` is the current content of its BC object -/
+def CopyClean (s : St) : Op → Prop
+  | .copy v => v < s.nV →
+      (s.vars v).valMod = false ∧ (s.vars v).applied = (s.bcs (s.vars v).bc).content
+  | _ => True
+
+/-- the weaker condition of the task statement: only un-applied value edits are excluded -/
+def CopyValueClean (s : St) : Op → Prop
+  | .copy v => v < s.nV → (s.vars v).valMod = false
+  | _ => True
+
+instance (s : St) (o : Op) : Decidable (CopyClean s o) := by
+  cases o <;> unfold CopyClean <;> infer_instance
+instance (s : St) (o : Op) : Decidable (CopyValueClean s o) := by
+  cases o <;> unfold CopyValueClean <;> infer_instance
+
+/-- side condition along a history started in `s`: every `.copy` is `CopyClean` -/
+def NoCopyOfDirtyFrom : St → List Op → Prop
+  | _, [] => True
+  | s, o :: os => CopyClean s o ∧ NoCopyOfDirtyFrom (step s o).1 os
+
+def NoCopyOfValueDirtyFrom : St → List Op → Prop
+  | _, [] => True
+  | s, o :: os => CopyValueClean s o ∧ NoCopyOfValueDirtyFrom (step s o).1 os
+
+instance : (s : St) → (os : List Op) → Decidable (NoCopyOfDirtyFrom s os)
+  | _, [] => isTrue trivial
+  | s, o :: os =>
+    have := instDecidableNoCopyOfDirtyFrom (step s o).1 os
+    by unfold NoCopyOfDirtyFrom; infer_instance
+
+instance : (s : St) → (os : List Op) → Decidable (NoCopyOfValueDirtyFrom s os)
+  | _, [] => isTrue trivial
+  | s, o :: os =>
+    have := instDecidableNoCopyOfValueDirtyFrom (step s o).1 os
+    by unfold NoCopyOfValueDirtyFrom; infer_instance
+
+def NoCopyOfDirty (ops : List Op) : Prop := NoCopyOfDirtyFrom init ops
+def NoCopyOfValueDirty (ops : List Op) : Prop := NoCopyOfValueDirtyFrom init ops
+instance (ops : List Op) : Decidable (NoCopyOfDirty ops) := by unfold NoCopyOfDirty; infer_instance
+instance (ops : List Op) : Decidable (NoCopyOfValueDirty ops) := by
+  unfold NoCopyOfValueDirty; infer_instance
+
+theorem ghostInv_step {s : St} (op : Op) (hc : CopyClean s op) (h : GhostInv s) :
+    GhostInv (step s op).1 := by
+  refine varInv_step ghostV_applyVar ghostV_mkVar ?_ ?_ op ?_ h
+  · intro x n _ hv; cases hv
+  · intro x y _ hv; cases hv
+  · intro v e hv hx _
+    subst e
+    have := hc hv
+    have hx := hx this.1
+    exact ⟨hx.1, hx.2.trans this.2⟩
+
+theorem preSolve_cache {s : St} {v : Nat} (h : CacheV (s.vars v)) :
+    ((preSolve s v).vars v).cache = some (s.bcs (s.vars v).bc).content := by
+  unfold preSolve; split
+  · rw [applyBCs_vars', if_pos rfl]; simp only [setVar, ↓reduceIte, applyVar]
+  · next hp =>
+    have hp' : (s.vars v).precalc = true := by simpa using hp
+    split
+    · rw [applyBCs_vars', if_pos rfl]; simp only [applyVar, hp', ↓reduceIte]
+    · next ho =>
+      have ho' : outdated s (s.vars v) = false := by simpa using ho
+      rw [h hp', (outdated_eq_false ho').2.2]
+
+
+
+/-! ### frame lemmas -/
+
+/-- the ops that write the fields of variable `u` -/
+def Op.writesVar : Op → Nat → Prop
+  | .editVal v, u => v = u
+  | .updateValue v _, u => v = u
+  | .applyBCs v, u => v = u
+  | .solve v, u => v = u
+  | .solveExplicit v, u => v = u
+  | _, _ => False
+
+/-- the ops that write BC object `b` in state `s`: edits of `b`, and `apply_BCs` (directly or
+    inside a solve) of a variable whose BC object is `b` (only the `modified` flag is cleared) -/
+def touchesBC (s : St) : Op → Nat → Prop
+  | .editBC b', b => b' = b
+  | .editBCSilent b', b => b' = b
+  | .applyBCs v, b => (s.vars v).bc = b
+  | .solve v, b => (s.vars v).bc = b
+  | .solveExplicit v, b => (s.vars v).bc = b
+  | _, _ => False
+
+theorem step_nV_mono (s : St) (op : Op) : s.nV ≤ (step s op).1.nV := by
+  cases op with
+  | newBC => exact Nat.le_refl _
+  | newVar b =>
+    by_cases hb : b < s.nB
+    · rw [step_newVar_nV hb]; exact Nat.le_succ _
+    · rw [step_invalid_newVar hb]; exact Nat.le_refl _
+  | newVarDefault => exact Nat.le_succ _
+  | editBC b => simp only [step]; split <;> exact Nat.le_refl _
+  | editBCSilent b => simp only [step]; split <;> exact Nat.le_refl _
+  | editVal v => simp only [step]; split <;> exact Nat.le_refl _
+  | updateValue v w => simp only [step]; split <;> exact Nat.le_refl _
+  | applyBCs v => simp only [step]; split <;> exact Nat.le_refl _
+  | solve v =>
+    by_cases hv : v < s.nV
+    · rw [step_solve hv, postSolve_nV, preSolve_nV]; exact Nat.le_refl _
+    · rw [step_invalid_solve hv]; exact Nat.le_refl _
+  | solveExplicit v =>
+    by_cases hv : v < s.nV
+    · rw [step_solveExplicit hv, postExplicit_nV, preExplicit_nV]; exact Nat.le_succ _
+    · rw [step_invalid_solveExplicit hv]; exact Nat.le_refl _
+  | copy v =>
+    by_cases hv : v < s.nV
+    · rw [step_copy_nV hv]; exact Nat.le_succ _
+    · rw [step_invalid_copy hv]; exact Nat.le_refl _
+  | arith v =>
+    by_cases hv : v < s.nV
+    · rw [step_arith_nV hv]; exact Nat.le_succ _
+    · rw [step_invalid_arith hv]; exact Nat.le_refl _
+
+theorem step_nB_mono (s : St) (op : Op) : s.nB ≤ (step s op).1.nB := by
+  cases op with
+  | newBC => exact Nat.le_succ _
+  | newVar b => simp only [step]; split <;> exact Nat.le_refl _
+  | newVarDefault => exact Nat.le_succ _
+  | editBC b => simp only [step]; split <;> exact Nat.le_refl _
+  | editBCSilent b => simp only [step]; split <;> exact Nat.le_refl _
+  | editVal v => simp only [step]; split <;> exact Nat.le_refl _
+  | updateValue v w => simp only [step]; split <;> exact Nat.le_refl _
+  | applyBCs v => simp only [step]; split <;> exact Nat.le_refl _
+  | solve v =>
+    by_cases hv : v < s.nV
+    · rw [step_solve hv, postSolve_nB, preSolve_nB]; exact Nat.le_refl _
+    · rw [step_invalid_solve hv]; exact Nat.le_refl _
+  | solveExplicit v =>
+    by_cases hv : v < s.nV
+    · rw [step_solveExplicit hv, postExplicit_nB, preExplicit_nB]; exact Nat.le_refl _
+    · rw [step_invalid_solveExplicit hv]; exact Nat.le_refl _
+  | copy v => simp only [step]; split
+              · exact Nat.le_succ _
+              · exact Nat.le_refl _
+  | arith v => simp only [step]; split
+               · exact Nat.le_succ _
+               · exact Nat.le_refl _
+
+/-- an op that does not write variable `u` leaves every field of the live variable `u` unchanged
+    (no op touches a variable other than its target: `apply_BCs` on a sharing variable only
+    clears the flag on the shared BC *object*) -/
+theorem step_frame_var {s : St} {op : Op} {u : Nat} (hu : u < s.nV) (h : ¬ op.writesVar u) :
+    (step s op).1.vars u = s.vars u := by
+  have hne : u ≠ s.nV := Nat.ne_of_lt hu
+  cases op with
+  | newBC => rfl
+  | newVar b =>
+    by_cases hb : b < s.nB
+    · rw [step_newVar_vars hb, if_neg hne]
+    · rw [step_invalid_newVar hb]
+  | newVarDefault => rw [step_newVarDefault_vars, if_neg hne]
+  | editBC b => simp only [step]; split <;> rfl
+  | editBCSilent b => simp only [step]; split <;> rfl
+  | editVal v =>
+    have hvu : ¬ u = v := fun e => h e.symm
+    simp only [step]; split
+    · simp only [setVar, if_neg hvu]
+    · rfl
+  | updateValue v w =>
+    have hvu : ¬ u = v := fun e => h e.symm
+    simp only [step]; split
+    · simp only [setVar, if_neg hvu]
+    · rfl
+  | applyBCs v =>
+    have hvu : ¬ u = v := fun e => h e.symm
+    simp only [step]; split
+    · rw [applyBCs_vars', if_neg hvu]
+    · rfl
+  | solve v =>
+    have hvu : ¬ u = v := fun e => h e.symm
+    by_cases hv : v < s.nV
+    · rw [step_solve hv, postSolve_vars, if_neg hvu, preSolve_vars_ne s hvu]
+    · rw [step_invalid_solve hv]
+  | solveExplicit v =>
+    have hvu : ¬ u = v := fun e => h e.symm
+    by_cases hv : v < s.nV
+    · rw [step_solveExplicit hv, postExplicit_vars, preExplicit_nV, if_neg hne,
+        preExplicit_vars_ne s hvu]
+    · rw [step_invalid_solveExplicit hv]
+  | copy v =>
+    by_cases hv : v < s.nV
+    · rw [step_copy_vars hv, if_neg hne]
+    · rw [step_invalid_copy hv]
+  | arith v =>
+    by_cases hv : v < s.nV
+    · rw [step_arith_vars hv, if_neg hne]
+    · rw [step_invalid_arith hv]
+
+/-- no op ever changes which BC object a live variable refers to -/
+theorem step_bc_field {s : St} (op : Op) {u : Nat} (hu : u < s.nV) :
+    ((step s op).1.vars u).bc = (s.vars u).bc := by
+  have hne : u ≠ s.nV := Nat.ne_of_lt hu
+  cases op with
+  | editVal v =>
+    simp only [step]; split
+    · simp only [setVar]; split
+      · next e => subst e; rfl
+      · rfl
+    · rfl
+  | updateValue v w =>
+    simp only [step]; split
+    · simp only [setVar]; split
+      · next e => subst e; rfl
+      · rfl
+    · rfl
+  | applyBCs v =>
+    simp only [step]; split
+    · rw [applyBCs_bc]
+    · rfl
+  | solve v =>
+    by_cases hv : v < s.nV
+    · rw [step_solve hv, postSolve_vars]; split
+      · next e => subst e; exact (preSolve_self s u).1
+      · next e => rw [preSolve_vars_ne s e]
+    · rw [step_invalid_solve hv]
+  | solveExplicit v =>
+    by_cases hv : v < s.nV
+    · rw [step_solveExplicit hv, postExplicit_vars, preExplicit_nV, if_neg hne]
+      rcases preExplicit_vars s v u with e | ⟨e1, e⟩
+      · rw [e]
+      · rw [e]; subst e1; rfl
+    · rw [step_invalid_solveExplicit hv]
+  | newBC => rw [step_frame_var (op := Op.newBC) hu (fun h => h)]
+  | newVar b => rw [step_frame_var (op := (Op.newVar b)) hu (fun h => h)]
+  | newVarDefault => rw [step_frame_var (op := Op.newVarDefault) hu (fun h => h)]
+  | editBC b => rw [step_frame_var (op := (Op.editBC b)) hu (fun h => h)]
+  | editBCSilent b => rw [step_frame_var (op := (Op.editBCSilent b)) hu (fun h => h)]
+  | copy v => rw [step_frame_var (op := (Op.copy v)) hu (fun h => h)]
+  | arith v => rw [step_frame_var (op := (Op.arith v)) hu (fun h => h)]
+
+/-- an op that does not touch the live BC object `b` leaves it unchanged -/
+theorem step_frame_bc {s : St} {op : Op} {b : Nat} (hb : b < s.nB) (h : ¬ touchesBC s op b) :
+    (step s op).1.bcs b = s.bcs b := by
+  have hne : ¬ b = s.nB := Nat.ne_of_lt hb
+  cases op with
+  | newBC => simp only [step, setBC, if_neg hne]
+  | newVar b' => simp only [step]; split <;> rfl
+  | newVarDefault => simp only [step, setBC, setVar, if_neg hne]
+  | editBC b' =>
+    have hbb : ¬ b = b' := fun e => h e.symm
+    simp only [step]; split
+    · simp only [setBC, if_neg hbb]
+    · rfl
+  | editBCSilent b' =>
+    have hbb : ¬ b = b' := fun e => h e.symm
+    simp only [step]; split
+    · simp only [setBC, if_neg hbb]
+    · rfl
+  | editVal v => simp only [step]; split <;> rfl
+  | updateValue v w => simp only [step]; split <;> rfl
+  | applyBCs v =>
+    have hbb : ¬ b = (s.vars v).bc := fun e => h e.symm
+    simp only [step]; split
+    · rw [applyBCs_bcs, if_neg hbb]
+    · rfl
+  | solve v =>
+    have hbb : ¬ b = (s.vars v).bc := fun e => h e.symm
+    by_cases hv : v < s.nV
+    · rw [step_solve hv, postSolve_bcs, (preSolve_self s v).1, if_neg hbb, preSolve_bcs_ne s hbb]
+    · rw [step_invalid_solve hv]
+  | solveExplicit v =>
+    have hbb : ¬ b = (s.vars v).bc := fun e => h e.symm
+    by_cases hv : v < s.nV
+    · rw [step_solveExplicit hv, postExplicit_bcs, if_neg hbb, preExplicit_bcs_ne s hbb]
+    · rw [step_invalid_solveExplicit hv]
+  | copy v =>
+    simp only [step]; split
+    · simp only [setBC, setVar, if_neg hne]
+    · rfl
+  | arith v =>
+    simp only [step]; split
+    · simp only [setBC, setVar, if_neg hne]
+    · rfl
+
+
+
+/-! ### induction along histories -/
+
+theorem inv_runFrom {I : St → Prop} (hstep : ∀ s op, I s → I (step s op).1) :
+    ∀ (ops : List Op) (s : St), I s → I (runFrom s ops)
+  | [], _, h => h
+  | o :: os, s, h => inv_runFrom hstep os (step s o).1 (hstep s o h)
+
+theorem inv_run {I : St → Prop} (h0 : I init) (hstep : ∀ s op, I s → I (step s op).1)
+    (ops : List Op) : I (run ops) := inv_runFrom hstep ops init h0
+
+theorem wf_init : WFSt init :=
+  ⟨fun _ hb => absurd hb (Nat.not_lt_zero _), fun _ hv => absurd hv (Nat.not_lt_zero _)⟩
+
+theorem ghostInv_runFrom : ∀ (ops : List Op) (s : St), NoCopyOfDirtyFrom s ops → GhostInv s →
+    GhostInv (runFrom s ops)
+  | [], _, _, h => h
+  | o :: os, s, hc, h => ghostInv_runFrom os (step s o).1 hc.2 (ghostInv_step o hc.1 h)
+
+/-- interior half of the ghost-layer invariant (needs only `CopyValueClean`) -/
+def GhostIV (x : Var) : Prop := x.valMod = false → x.ghostI = x.interior
+
+theorem ghostIV_step {s : St} (op : Op) (hc : CopyValueClean s op) (h : VarInv GhostIV s) :
+    VarInv GhostIV (step s op).1 := by
+  refine varInv_step (fun _ _ _ => rfl) (fun _ _ _ _ _ => rfl) ?_ ?_ op ?_ h
+  · intro x n _ hv; cases hv
+  · intro x y _ hv; cases hv
+  · intro v e hv hx _
+    subst e
+    exact hx (hc hv)
+
+theorem ghostIV_runFrom : ∀ (ops : List Op) (s : St), NoCopyOfValueDirtyFrom s ops →
+    VarInv GhostIV s → VarInv GhostIV (runFrom s ops)
+  | [], _, _, h => h
+  | o :: os, s, hc, h => ghostIV_runFrom os (step s o).1 hc.2 (ghostIV_step o hc.1 h)
+
+/-! ### more projections -/
+
+theorem step_newVar_bcs {s : St} {b : Nat} (hb : b < s.nB) : (step s (.newVar b)).1.bcs = s.bcs := by
+  simp only [step, if_pos hb]; rfl
+
+theorem step_copy_nB {s : St} {v : Nat} (hv : v < s.nV) : (step s (.copy v)).1.nB = s.nB + 1 := by
+  simp only [step, if_pos hv]; rfl
+
+theorem step_copy_bcs {s : St} {v : Nat} (hv : v < s.nV) (b : Nat) :
+    (step s (.copy v)).1.bcs b = if b = s.nB then s.bcs (s.vars v).bc else s.bcs b := by
+  simp only [step, if_pos hv]; rfl
+
+/-- the output of a solve, given only that the cached terms of `v` match its snapshot -/
+theorem solve_out_of_cacheV {s : St} {v : Nat} (hv : v < s.nV) (h : CacheV (s.vars v)) :
+    (step s (.solve v)).2 = Out.solved (some (s.bcs (s.vars v).bc).content) (s.vars v).interior := by
+  rw [step_solve hv]
+  simp only [preSolve_cache h, (preSolve_self s v).2.1]
+
+/-! ### independence -/
+
+/-- the ops that write only variable `w` / BC object `bw` (pure constructions write nothing
+    that already exists) -/
+def Targets (w bw : Nat) : Op → Prop
+  | .editBC b => b = bw
+  | .editBCSilent b => b = bw
+  | .editVal x => x = w
+  | .updateValue x _ => x = w
+  | .applyBCs x => x = w
+  | .solve x => x = w
+  | .solveExplicit x => x = w
+  | _ => True
+
+instance (w bw : Nat) (o : Op) : Decidable (Targets w bw o) := by
+  cases o <;> unfold Targets <;> infer_instance
+
+theorem step_independent {s : St} {o : Op} {w bw v bv : Nat} (ht : Targets w bw o)
+    (hv : v < s.nV) (hb : bv < s.nB) (hwb : (s.vars w).bc = bw) (hvw : v ≠ w) (hbb : bv ≠ bw) :
+    (step s o).1.vars v = s.vars v ∧ (step s o).1.bcs bv = s.bcs bv := by
+  constructor
+  · apply step_frame_var hv
+    cases o <;> simp only [Op.writesVar, Targets] at ht ⊢
+    all_goals first | exact (fun h => h) | (intro e; exact hvw (e.symm.trans ht))
+  · apply step_frame_bc hb
+    cases o <;> simp only [touchesBC, Targets] at ht ⊢
+    all_goals first
+      | exact (fun h => h)
+      | (intro e; exact hbb (e.symm.trans ht))
+      | (intro e; subst ht; exact hbb (e.symm.trans hwb))
+
+theorem runFrom_independent {w bw v bv : Nat} : ∀ (ops : List Op) (s : St),
+    (∀ o, o ∈ ops → Targets w bw o) → v < s.nV → w < s.nV → bv < s.nB →
+    (s.vars w).bc = bw → v ≠ w → bv ≠ bw →
+    (runFrom s ops).vars v = s.vars v ∧ (runFrom s ops).bcs bv = s.bcs bv
+  | [], _, _, _, _, _, _, _, _ => ⟨rfl, rfl⟩
+  | o :: os, s, ht, hv, hw, hb, hwb, hvw, hbb => by
+    have h1 := step_independent (ht o (List.mem_cons_self ..)) hv hb hwb hvw hbb
+    have ih := runFrom_independent os (step s o).1 (fun o' ho' => ht o' (List.mem_cons_of_mem _ ho'))
+      (Nat.lt_of_lt_of_le hv (step_nV_mono s o)) (Nat.lt_of_lt_of_le hw (step_nV_mono s o))
+      (Nat.lt_of_lt_of_le hb (step_nB_mono s o)) ((step_bc_field o hw).trans hwb) hvw hbb
+    rw [runFrom_cons]
+    exact ⟨ih.1.trans h1.1, ih.2.trans h1.2⟩
+
+/-! ### a well-formed (but unreachable) state showing that `CacheOK` / `GhostOK` alone are not
+    one-step inductive: variable 1 shares BC object 0 with variable 0, its snapshot equals the
+    current content, the object is flagged modified, but cache and ghost layer are old -/
+def ceState : St :=
+  { bcs := fun _ => ⟨5, true⟩, nB := 1,
+    vars := fun i => if i = 0 then ⟨0, 2, 2, 5, some 5, 5, false, true⟩
+                     else ⟨0, 3, 3, 4, some 4, 5, false, true⟩,
+    nV := 2, next := 6 }
+
+theorem wf_ceState : WFSt ceState := by
+  constructor
+  · intro b _; show 5 < 6; decide
+  · intro v hv
+    have hv' : v < 2 := hv
+    have : v = 0 ∨ v = 1 := by omega
+    rcases this with rfl | rfl
+    · refine ⟨?_, ?_, ?_, ?_, ?_, ?_⟩ <;> simp [ceState]
+    · refine ⟨?_, ?_, ?_, ?_, ?_, ?_⟩ <;> simp [ceState]
+
+
+/-- a mixed history used by the non-vacuity examples of C09 -/
+def demoHistory : List Op :=
+  [.newBC, .newVar 0, .newVar 0, .editBC 0, .solve 0, .editBCSilent 0, .solveExplicit 1, .solve 2,
+   .editVal 1, .applyBCs 1, .copy 1, .arith 3, .updateValue 0 1, .newVarDefault, .solve 0]
+
 end PyFV.State
